@@ -446,6 +446,10 @@ class MementoFunction(MementoFunctionBase):
         if self._calculated_version is not None:
             cluster = Environment.get().get_cluster(cluster_name=self.cluster_name)
             if cluster is not None and cluster.locked:
+                # The version is frozen, but a clone made while the cluster is locked
+                # has no function reference yet
+                if self._fn_reference is None:
+                    self._update_fn_reference()
                 return
 
         # Check the version cache to see if we need to recompute the version
